@@ -371,6 +371,87 @@ def shard_small(ctx, shard_no, nshards, stride):
             ctx.case(inp['text'], True, 'small:' + name)
 
 
+DEGENERATE_ROOTS = ['1', '0.5', '"a"', 'True', '@m', 'x', '{1, x}', '{@m.f, 2}', '[0 to x]', '@m.f', 'xs[0]', 'xs[@m.i]', '-x', 'not p', 'len(xs)', 'x > 0', '@m.f = x']
+
+
+def run_degenerate_pipelines(ctx):
+    """Inputs that ARE (not merely contain) a literal, a variable, the current message, a set, a range - and what the
+    functions make of them: every function on every root, then every function again on every expression it returned."""
+    from hpl import rewrite as rw
+
+    def steps(a):
+        fns = [('replace_var_with_this[m]', lambda e: rw.replace_var_with_this(e, 'm')), ('replace_var_with_this[q]', lambda e: rw.replace_var_with_this(e, 'q')),
+               ('replace_this_with_var', lambda e: rw.replace_this_with_var(e, 'V9')), ('refactor_reference[m]', lambda e: rw.refactor_reference(e, 'm')),
+               ('split_and', rw.split_and), ('get_conjuncts', rw.get_conjuncts), ('get_disjuncts', rw.get_disjuncts)]  # fmt: skip
+        if ev.closed_ok(astx.to_model(a)):
+            fns.append(('simplify', rw.simplify))
+        return fns
+
+    def results(r):
+        out = []
+        for x in r if isinstance(r, (list, tuple)) else [r]:
+            if getattr(x, 'is_expression', False) or getattr(x, 'is_predicate', False):
+                out.append(x)
+        return out
+
+    with ctx.timed('degenerate-pipelines'):
+        for text in DEGENERATE_ROOTS:
+            k, a = lib.outcome('expression', text)
+            if k != 'ast':
+                ctx.count('degenerate:rejected-by-parser')
+                continue
+            for n1, f1 in steps(a):
+                st, r1 = core.guarded(f1, a)
+                if st == 'exc':
+                    if not _allowed_degenerate(n1, r1, a):
+                        ctx.report(Violation('pipeline', f'{n1}:{core.exc_sig(r1)}', {'text': text, 'steps': [n1]}, f'{n1}({text}) raised {type(r1).__name__}: {str(r1)[:200]}'))
+                    continue
+                for b in results(r1):
+                    for n2, f2 in steps(b):
+                        st2, r2 = core.guarded(f2, b)
+                        ctx.case(('pipeline', text, n1, n2, str(b)), True, 'degenerate-pipeline')
+                        if st2 == 'exc' and not _allowed_degenerate(n2, r2, b):
+                            ctx.report(Violation('pipeline', f'{n1}>{n2}:{core.exc_sig(r2)}', {'text': text, 'steps': [n1, n2]}, f'{n2} applied to {b} (= {n1}({text})) raised {type(r2).__name__}: {str(r2)[:200]}'))
+
+
+def _allowed_degenerate(name, exc, a):
+    model = astx.to_model(a)
+    if name == 'simplify':
+        return not isinstance(exc, RecursionError) and c08._contains_zero_divisor_or_undefined_constant(model, None)
+    if name == 'split_and':
+        return type(exc) is ValueError and any(n == ('lit', 'bool', False) for n in ev._walk(model))
+    return False
+
+
+def sub_pipeline(inp):
+    """inp: {'text': expression text, 'steps': [names]}: replay of one degenerate pipeline."""
+    from hpl import rewrite as rw
+
+    table = {'replace_var_with_this[m]': lambda e: rw.replace_var_with_this(e, 'm'), 'replace_var_with_this[q]': lambda e: rw.replace_var_with_this(e, 'q'),
+             'replace_this_with_var': lambda e: rw.replace_this_with_var(e, 'V9'), 'refactor_reference[m]': lambda e: rw.refactor_reference(e, 'm'),
+             'split_and': rw.split_and, 'get_conjuncts': rw.get_conjuncts, 'get_disjuncts': rw.get_disjuncts, 'simplify': rw.simplify}  # fmt: skip
+    k, a = lib.outcome('expression', inp['text'])
+    if k != 'ast':
+        return None
+    objs = [a]
+    for i, name in enumerate(inp['steps']):
+        nxt = []
+        for o in objs:
+            st, r = core.guarded(table[name], o)
+            if st == 'exc':
+                if not _allowed_degenerate(name, r, o):
+                    raise Violation('pipeline', f'{">".join(inp["steps"][: i + 1])}:{core.exc_sig(r)}', inp, f'{name} applied to {o} raised {type(r).__name__}: {str(r)[:200]}')
+                continue
+            for x in r if isinstance(r, (list, tuple)) else [r]:
+                if getattr(x, 'is_expression', False) or getattr(x, 'is_predicate', False):
+                    nxt.append(x)
+        objs = nxt
+    return len(objs)
+
+
+SUBS['pipeline'] = sub_pipeline
+
+
 def shard_vacuity(ctx, shard_no, nshards, stride):
     """Properties whose event predicates are absent / {True} / {False} / {x > 0}, per position and on whole disjunctions."""
     with ctx.timed('vacuity-table'):
@@ -392,6 +473,7 @@ def shard_vacuity(ctx, shard_no, nshards, stride):
 def run(ctx):
     with ctx.timed('table'):
         run_table(ctx)
+    run_degenerate_pipelines(ctx)
     if ctx.tier == 'quick':
         core.run_sharded(ctx, __name__, 'shard', 4, (450, 180))
         core.run_sharded(ctx, __name__, 'shard_small', 4, (40,))
